@@ -45,7 +45,10 @@ def check(ctx):
     }
     for key, (mname, user_attr, proj_i, flags) in specs.items():
         fi = method(repo, gb, mname, own=True)
-        r = evaluate(repo, fi)
+        inl = make_inliner(repo, self_class=gb, allow=lambda f: f.cls is not None
+                           and f.cls.qualname == gb.qualname and f.name.startswith("_")
+                           and f.name not in ("_all_nodes_and_vars",))
+        r = evaluate(repo, fi, inline=inl, inline_depth=3)
         user = ("a", SELF, user_attr)
         adds = [(t, cond) for t, _, cond in r.calls if t[1] == ("a", SELF, "add")]
         default = [(t, cond) for t, cond in adds if (user, False) in cond]
